@@ -38,6 +38,12 @@ class Ctx:
         self.work = os.path.join(VERIF, ".work", "%s-%d" % (pid, os.getpid()))
         shutil.rmtree(self.work, ignore_errors=True)
         os.makedirs(self.work)
+        import glob
+        for f in glob.glob(os.path.join(VERIF, "replays", pid + "-*.json")):   # replays of earlier runs of this check
+            try:
+                os.remove(f)
+            except OSError:
+                pass
         self.states = 0          # TLC distinct states
         self.transitions = 0     # TLC generated states
         self.traces = 0          # real-code behaviours compared / validated
